@@ -200,4 +200,21 @@ def Metric.ofRats (r : List (Int × Nat)) : Option Metric :=
     some { xx := sc a, yy := sc b, zz := sc c, yz := sc d, xz := sc e, xy := sc f, den := L }
   | _ => none
 
+
+/-! ### executable sufficient test that the search range contains every lattice vector shorter than `v₃`
+(`Minkowski3.ball_of_check`, `C18.ballInBox_of_check`) -/
+
+/-- diagonal cofactors of the metric numerator matrix -/
+def cof00 (g : Metric) : Int := g.yy * g.zz - g.yz * g.yz
+def cof11 (g : Metric) : Int := g.xx * g.zz - g.xz * g.xz
+def cof22 (g : Metric) : Int := g.xx * g.yy - g.xy * g.xy
+/-- determinant of the numerator matrix = third leading minor -/
+def det (g : Metric) : Int := (minors g).2.2
+
+/-- `q(w)·cofᵢᵢ ≥ wᵢ²·det G` for a positive definite form, so `q(v₃)·cofᵢᵢ ≤ uvw²·det G` forces `|wᵢ| < uvw` whenever `q(w) < q(v₃)` -/
+def ballCheck (g : Metric) (uvw : Nat) (s : Sel) : Bool :=
+  decide (qform g s.v3 * cof00 g ≤ (uvw : Int) ^ 2 * det g) &&
+  decide (qform g s.v3 * cof11 g ≤ (uvw : Int) ^ 2 * det g) &&
+  decide (qform g s.v3 * cof22 g ≤ (uvw : Int) ^ 2 * det g)
+
 end Reduce
